@@ -19,7 +19,7 @@ theorem panic_never_accepted (e : Expect) (o : Obs) (h : o.out = none) :
 
 /-- and it is rejected with the clause `panic` whenever the operation is known -/
 theorem panic_is_violation (alts : List (List Val)) (raised : Flags) (o : Obs) (h : o.out = none) :
-    judgeWith (.oneOf alts raised) o = .viol "panic" "the call panicked" := by
+    judgeWith (.oneOf alts raised) o = .viol "panic" "the call panicked or did not return" := by
   unfold judgeWith; rw [h]
 
 /-- every harness operation named in the entry-point table has an expectation other than `unknown`
